@@ -341,3 +341,79 @@ func TestPropMicroTasks(t *testing.T) {
 		}
 	})
 }
+
+// TestPropDoneConcurrent: "a done function obtained from the signal variants takes effect once no matter how often it
+// is called" - also when several goroutines call it at the same moment. Each attempt releases k callers through one
+// channel close; afterwards the global and per-module counts must be exactly zero (a double effect drives them negative
+// and lets limit+1 microtasks in, a lost effect leaves them positive).
+func TestPropDoneConcurrent(t *testing.T) {
+	rapid.Check(t, func(t *rapid.T) {
+		attempts := 4000
+		callers := rapid.IntRange(2, 6).Draw(t, "callers")
+		prio := rapid.SampledFrom([]string{"high", "high", "med", "low"}).Draw(t, "prio")
+		spin := rapid.SampledFrom([]int{0, 0, 20, 200}).Draw(t, "spin")
+		m := mods[rapid.IntRange(0, len(mods)-1).Draw(t, "module")]
+		modules.SetMaxConcurrentMicroTasks(8)
+		for a := 0; a < attempts; a++ {
+			var done func()
+			switch prio {
+			case "high":
+				done = m.SignalHighPriorityMicroTask()
+			case "med":
+				done = m.SignalMicroTask(time.Hour)
+			default:
+				done = m.SignalLowPriorityMicroTask(time.Hour)
+			}
+			start := make(chan struct{})
+			var wg sync.WaitGroup
+			for c := 0; c < callers; c++ {
+				wg.Add(1)
+				go func(c int) {
+					defer wg.Done()
+					<-start
+					for i := 0; i < spin*c; i++ { // stagger the callers a little
+						_ = i
+					}
+					done()
+				}(c)
+			}
+			close(start)
+			wg.Wait()
+			if prio != "high" && a%64 != 0 {
+				continue // clearance counting by the scheduler lags by design: settle only now and then
+			}
+			// the scheduler counts a clearance just after granting it, so the global count may dip below zero for a
+			// moment: only a value that stays off zero is a verdict
+			deadline := time.Now().Add(4 * time.Second)
+			for {
+				running, _, pm, pl := modules.VerifMicroTaskState()
+				per := modules.GetStatus().Modules[m.Name].MicroTasks
+				if running == 0 && per == 0 && pm == 0 && pl == 0 {
+					break
+				}
+				if time.Now().After(deadline) {
+					t.Fatalf("C15-2-done-once: after attempt %d (%d goroutines calling the same done function of a %s-priority signalled microtask at once) the global running count is %d and the module count %d, want 0", a, callers, prio, running, per)
+				}
+				time.Sleep(50 * time.Microsecond)
+			}
+		}
+		// final settle
+		deadline := time.Now().Add(4 * time.Second)
+		for {
+			running, _, pm, pl := modules.VerifMicroTaskState()
+			per := modules.GetStatus().Modules[m.Name].MicroTasks
+			if running == 0 && per == 0 && pm == 0 && pl == 0 {
+				break
+			}
+			if time.Now().After(deadline) {
+				t.Fatalf("C15-2-done-once: after %d attempts with %d concurrent callers (%s priority) the global running count is %d and the module count %d, want 0", attempts, callers, prio, running, per)
+			}
+			time.Sleep(50 * time.Microsecond)
+		}
+		stats.Case(fmt.Sprintf("done-storm %d %s %d", callers, prio, spin), true, "done_concurrent_"+prio)
+		stats.ClassN("done_concurrent_attempts", int64(attempts))
+		if stats.WantSample("done_concurrent") {
+			stats.Sample("done_concurrent", map[string]any{"callers": callers, "priority": prio, "attempts": attempts, "stagger_spin": spin})
+		}
+	})
+}
